@@ -77,10 +77,13 @@ pub fn dead_code_elimination(function: &il::Function) -> Result<il::Function, Er
             location
                 .instruction()
                 .map(|instruction| {
+                    // An instruction is a candidate only if we know every scalar
+                    // it writes. An intrinsic with undeclared effects may do
+                    // anything, and is never dead.
                     !instruction
                         .scalars_written()
                         .map(|scalars_written| scalars_written.is_empty())
-                        .unwrap_or(false)
+                        .unwrap_or(true)
                 })
                 .unwrap_or(false)
         })
